@@ -1,5 +1,6 @@
 """Talks to the compiled Lean model driver (lean/.lake/build/bin/pymodel) over a pipe."""
 import os
+import signal
 import subprocess
 
 HERE = os.path.dirname(os.path.abspath(__file__))
@@ -26,9 +27,16 @@ class Model:
             self.resyncs = getattr(self, "resyncs", []) + [self.inflight[:120]]
             self.inflight = None
         self.inflight = line
-        self.p.stdin.write(line.encode() + b"\n")
-        self.p.stdin.flush()
-        out = self.p.stdout.readline()
+        # one request line, one answer line: the exchange must not be torn apart by the budget timer of
+        # core.with_budget (SIGALRM raising Hang between the write and the read); the alarm is held back until the
+        # answer has been read (the resynchronisation above stays as a second line of defence)
+        old = signal.pthread_sigmask(signal.SIG_BLOCK, {signal.SIGALRM})
+        try:
+            self.p.stdin.write(line.encode() + b"\n")
+            self.p.stdin.flush()
+            out = self.p.stdout.readline()
+        finally:
+            signal.pthread_sigmask(signal.SIG_SETMASK, old)
         self.inflight = None
         if not out:
             raise RuntimeError("pymodel died on: " + line[:200])
